@@ -63,38 +63,11 @@ def run(tier, seed, replay=None):
                 dst = ['same', 'other', 'null'][rng.below(3)]
                 if call == 'ext' and dst == 'null':
                     dst = 'other'
-                hs.append('%s:%d:%d:%d:%d:%d:%s:%s' % (call, d, e, 1 + rng.below(3), [0, 1, 2, 3, 4, 1000000][rng.below(6)], [0, 1, 2, 3][rng.below(4)], dst, ['null', 'caller'][rng.below(2)]))
+                hs.append('%s:%d:%d:%d:%d:%d:%s:%s:%d:%d' % (call, d, e, 1 + rng.below(6), [0, 1, 2, 3, 4, 1000000][rng.below(6)], [0, 1, 2, 3][rng.below(4)], dst, ['null', 'caller'][rng.below(2)],
+                                                      rng.below(nttlib.NVEC), [0, 0, 0, 0, 1, 2, 3][rng.below(7)]))
             hid += 1
             lines.append('H %d %d %d %d %s' % (hid, ALPHA_S, 1 + rng.below(3), k, ' '.join(hs)))
     v, exe, tpath = nttlib.replay(ck, wd, lines, seed, ALPHA_S, 'call histories on a shared object vs fresh objects (%d histories)' % len(lines), hist=True)
-    byid = {int(l.split()[1]): l for l in lines}
-    seen = set()
-    for idx, rec in v['rejected']:
-        if rec.get('e') == 'crash':
-            hid = int(rec['case'].split()[1]); what = 'crash %s %s' % (rec['kind'], rec['code']); step = '?'
-            calls = byid[hid].split()[5:]
-        else:
-            hid = rec.get('ci'); step = rec.get('step')
-            calls = byid[hid].split()[5:5 + step]
-            same_as_fresh = rec.get('out') == rec.get('fresh')
-            what = 'differs-from-fresh-object' if not same_as_fresh else 'wrong-result'
-        kinds = '>'.join('%s(N=2^%s%s)' % (c.split(':')[0], c.split(':')[1], ',x=' + c.split(':')[2] if c.startswith('ext') else '') for c in calls[-3:])
-        key = 'history %s -> %s at step %s' % (kinds, what, step)
-        cls = (what, tuple(c.split(':')[0] for c in calls[-2:]))
-        if cls in seen or len(ck.violations) >= 8:
-            continue
-        seen.add(cls)
-        c2 = [byid[hid]]
-        wd2 = os.path.join(wd, 'confirm'); os.makedirs(wd2, exist_ok=True)
-        cp = os.path.join(wd, 'confirm_cases.txt'); tp = os.path.join(wd, 'confirm.ndjson')
-        open(cp, 'w').write(byid[hid] + '\n')
-        if os.path.exists(tp):
-            os.remove(tp)
-        sh([exe, os.path.join(wd, 'ntt_inputs.txt'), cp, tp], timeout=300)
-        v2 = validate_trace(wd, 'Trace_NTT', 'Trace_NTT.cfg', tp, env={'NTTIN': os.path.join(wd, 'ntt_inputs.json')}, nsplit=1)
-        if v2['rejected']:
-            ck.violation(key, 'history %s' % byid[hid][:300], dict(cases=[byid[hid]]))
-        else:
-            ck.note('rejection not reproduced: ' + key)
+    nttlib.judge_histories(ck, wd, v, exe, lines)
     ck.cov['histories'] = len(lines); ck.cov['rejected_records'] = len(v['rejected'])
     return ck.finish()
